@@ -6,7 +6,8 @@ ShapesA == { Sh("Standard", 2, 0, 0, -1, FALSE, 1), Sh("Standard", 0, 0, 0, -1, 
              Sh("Pegged", 3, 0, 0, -1, FALSE, 1),
              Sh("Iceberg", 1, 2, 0, -1, FALSE, 2), Sh("Iceberg", 0, 1, 0, -1, FALSE, 1),
              Sh("Reserve", 1, 2, 1, 1, TRUE, 1), Sh("Reserve", 2, 2, 0, 0, TRUE, 2),
-             Sh("Reserve", 1, 1, 0, -1, FALSE, 1), Sh("Reserve", 2, 3, 2, 2, TRUE, 2) }
+             Sh("Reserve", 1, 1, 0, -1, FALSE, 1), Sh("Reserve", 2, 3, 2, 2, TRUE, 2),
+             Sh("Reserve", 0, 2, 0, 1, TRUE, 1) }        \* hidden only: shows nothing, replenishes when reached
 ShapesB == { Sh("PostOnly", 2, 0, 0, -1, FALSE, 2), Sh("TrailingStop", 3, 0, 0, -1, FALSE, 1),
              Sh("MarketToLimit", 3, 0, 0, -1, FALSE, 2),
              Sh("Iceberg", 2, 1, 0, -1, FALSE, 1), Sh("Reserve", 1, 3, 1, -1, TRUE, 2) }
